@@ -13,7 +13,7 @@ CLAIMS = {
         note="Trusted: Kani/CBMC/CaDiCaL; the harness-side string oracle (layout base i = (storage >> 2(K-1-i)) & 3). Assumed: documented preconditions (pos+n<=K, n in 1..=32, bases<4, rank<4^K, unused lanes zero — the latter proved inductive under C11). Stub S1 on the two heap-backed renderings. Debug formatting is not covered.",
         ref="DESIGN.md §4 C10"),
     "C11": dict(
-        text="Induction over operation histories, three solver lemmas per k-mer type: (L1) 'unused lanes are zero' is established by every constructor and preserved by every value-producing operation for all in-range arguments; (L2) under it ==, cmp, partial_cmp, <, >= equal the lexicographic comparison of the strings for all pairs; (L3) the bytes fed to a recording Hasher are a function of the string. All 20 instantiations, all values.",
+        text="Induction over operation histories, three solver lemmas per k-mer type: (L1) 'unused lanes are zero' is established by every constructor and preserved by every value-producing operation for all in-range arguments; (L2) under it ==, cmp, partial_cmp, <, >= equal the lexicographic comparison of the strings for all pairs; (L3) the bytes fed to a recording Hasher are equal for equal strings and differ for different strings (so no hasher, seed or perfect-hash level can conflate two keys). All 20 instantiations, all values.",
         note="Trusted: Kani/CBMC/CaDiCaL, the string oracle. The step from L1-L3 to 'any finite sequence of operations' is the usual induction (paper step). std's sort/dedup/binary_search and the perfect hash are not executed: they are corollaries of a lawful Ord/Eq/Hash.",
         ref="DESIGN.md §4 C11"),
 }
@@ -29,10 +29,10 @@ CLAIMS.update({
         ref="DESIGN.md §4 C13"),
     "C14": dict(
         text="Induction over operation histories with the representation invariant INV_S (storage.len()==ceil(len/32), padding bits zero): every constructor establishes it with the right contents; push/set_mut/clear/extend/push_bytes each preserve it from an ARBITRARY INV_S state and change exactly the specified bases; observers (len,get,iter,to_bytes,to_ascii_vec,reverse,rc,ndiffs) and ==/cmp/hash on two arbitrary INV_S states equal those of the plain base vector; PackedDnaStringSet::add/get/slice.",
-        note="Bounds: pre-states <= 96 bases (block count concrete 0..3, contents and in-block length symbolic); extend: pre-lengths {0,1,30,31,32,33,63,64,65} x {0,1,3} items; push_bytes: 2 bytes; renderings: lengths <= 5; from_dna_string: <= 1 char (UTF-8 decoding of symbolic text explodes); Display not covered here. The step 'one-step lemmas => all histories' is the usual induction. Stub S1 on renderings.",
+        note="Bounds: pre-states <= 96 bases (block count concrete 0..3, contents and in-block length symbolic); extend: pre-lengths {0,1,30,31,32,33,63,64,65} x {0,1,3} items; push_bytes: 2 bytes; renderings: lengths <= 5; from_dna_string: <= 1 char (UTF-8 decoding of symbolic text explodes); Display for lengths 1 and 3 (stub S4). The step 'one-step lemmas => all histories' is the usual induction. Stub S1 on renderings.",
         ref="DESIGN.md §4 C14"),
     "C15": dict(
-        text="From an arbitrary (string, slice-record) state: get/len/iter, prefix/suffix/slice constructors, slice-of-slice and rc (closed under both, hence any nesting/interleaving by induction), ==, get_kmer, bytes/ascii/to_dna_string/to_owned, Display and Debug into a fixed sink, and hamming_dist (short lengths: fully symbolic pairs at every offset/orientation; 31..65: whole-string pairs; >=1023: sparse symbolic differences) all equal the reference view of the plain base vector.",
+        text="From an arbitrary (string, slice-record) state: get/len/iter, prefix/suffix/slice constructors, slice-of-slice and rc (closed under both, hence any nesting/interleaving by induction), ==, get_kmer, bytes/ascii/to_dna_string/to_owned, Display and Debug into a fixed sink, and hamming_dist (short lengths: fully symbolic pairs at every offset/orientation; 31..65: whole-string pairs; length 33 with the two starts drawn independently from {0,1,32,33}; >=1023: sparse symbolic differences) all equal the reference view of the plain base vector.",
         note="Bounds: strings <= 96 bases (33/65 blocks for the long distance queries); rendering lengths <= 3 (5 thorough); Debug with concrete start; long distances only with <= 2 differing positions and whole-string forward slices. Stubs S1, S4. Two genuine defects were found by these checks and fixed in /repo (see known_findings.txt).",
         ref="DESIGN.md §4 C15"),
     "C17": dict(
@@ -47,7 +47,7 @@ CLAIMS.update({
 
 CLAIMS.update({
     "C16": dict(
-        text="Two engines. (1) mirsmt: the nightly MIR of bitops_avx2::{convert_bases, pack_32_bases} and of the scalar tables is translated on every run to SMT-LIB2 bit-vectors (AVX2 intrinsics modelled from the Intel SDM) and z3 and cvc5 must both answer unsat for: a panic is reachable / packed != scalar packing / a lane != base_to_bits / validity flag != all-valid — over ALL 256^32 blocks. (2) Kani: all 256 inputs of every scalar table; from_acgt_bytes on every byte string of lengths 0,1,32,33,65 (thorough: 31,63,64,95,96,97) on the scalar path and on the vector path's chunking with the kernels replaced by their SMT-proved scalar spec; Kmer::from_ascii for all 20 k-mer types; hashed-N and strict constructors on tiny inputs.",
+        text="Two engines. (1) mirsmt: the nightly MIR of bitops_avx2::{convert_bases, pack_32_bases} and of the scalar tables is translated on every run to SMT-LIB2 bit-vectors (AVX2 intrinsics modelled from the Intel SDM) and z3 and cvc5 must both answer unsat for: a panic is reachable / packed != scalar packing / a lane != base_to_bits / validity flag != all-valid — over ALL 256^32 blocks. (2) Kani: all 256 inputs of every scalar table; from_acgt_bytes on every byte string of lengths 0,1,32,33,65 (thorough: 31,63,64,95,96,97) on the scalar path and on the vector path's chunking with the kernels replaced by their SMT-proved scalar spec; Kmer::from_ascii for all 20 k-mer types; hashed-N (determinism, ACGT untouched, substituted base < 4, and dependence on (name, position) only: two 2-byte reads sharing a non-ACGT byte get the same base there) and strict constructors on tiny inputs.",
         note="Trusted: my MIR-subset translator and intrinsic semantics (validated each run against the real binary on the repo's test vectors + seeded random blocks; any unsupported MIR, `(error` line or solver disagreement = inconclusive), z3 4.8.12, cvc5 1.0, Kani/CBMC. Stubs S1, S3a/S3b (CPU feature detection), kernel spec stubs. Outside: non-ASCII &str input, real cpuid dispatch, from_dna_string beyond 1 char, hashed-N beyond 1 byte (quick) / 3 bytes (thorough), strict constructor beyond 2 chars.",
         ref="DESIGN.md §4 C16", engine="kani+mirsmt",
         technique="MIR-to-SMT-LIB2 symbolic execution of the AVX2 kernels decided by z3 and cvc5 (all 256^32 blocks) + Kani/CBMC bounded model checking of the scalar and chunking code"),
@@ -72,7 +72,7 @@ CLAIMS.update({
         note="Bounds: K in {3,4} quick, {5,6,8} thorough. Same trust base as C05; the canonicalisation composition is the harness copy.",
         ref="DESIGN.md §5 C06"),
     "C07": dict(
-        text="Scanner::scan over every read of N bases with P=Kmer2 and a fully symbolic 16-entry score table (every score function on 2-mers, ties and constants included): intervals in start order, consecutive overlap exactly k-1, first at 0 and last ending at N, k <= len <= 2k-p, reported minimizer = p-mer at the reported position, inside every k-mer of the interval, minimal over all p-mers of the interval, and no interval ends while the next k-mer still contains the minimizer and brings no strictly better p-mer.",
+        text="Scanner::scan over every read of N bases with P=Kmer2 and a fully symbolic 16-entry score table (every score function on 2-mers, ties and constants included): intervals in start order, consecutive overlap exactly k-1, first at 0 and last ending at N, k <= len <= 2k-p, reported minimizer = p-mer at the reported position, inside every k-mer of the interval, minimal over all p-mers of the interval, and no interval ends while the next k-mer still contains the minimizer and brings no strictly better p-mer. The deprecated permutation wrapper simple_scan (symbolic injective table, rc on/off) is checked to tile the read and to report, per interval, the canonical form of the arg-min p-mer under min(perm[x], perm[rc x]).",
         note="Bounds (the honest limit of CBMC's heap model): (N,k) in {(2..5,2),(3..4,3),(4..5,4)} quick, plus (5..6,3),(6,4) thorough — i.e. at most 3-4 k-mers per read; P=Kmer2 and the DnaSlice container only (other containers differ in get/get_kmer, decided under C13). Stubs S1, S2.",
         ref="DESIGN.md §4 C07"),
     "C08": dict(
